@@ -18,7 +18,8 @@ RULE = ("Hypothesis-generated scenarios: 1-3 chromosomes, 1-8 groups whose names
         "order, reads lacking tag / delimiter / table row, groups absent from a chromosome; modes file_name (2-4 "
         "BAMs, optional labels), tag:RG/CB, read_id:<delim>, file:<tsv[.gz]>[:cols:delim]; --counts_format "
         "matrix/linear/both; every shard worker runs under its own PYTHONHASHSEED. Non-trivial = >=3 groups, >=1 "
-        "ungroupable read and >=2 chromosomes with reads; distinct by scenario hash.")
+        "ungroupable read and >=2 chromosomes with reads; distinct by scenario hash. Half of the runs build "
+        "transcript models (their grouped tables are checked too).")
 ASSUMPTIONS = ["group of a read per docs/cmd.md; a read without tag/delimiter/table row belongs to NA",
                "a feature zeroed as unconfirmed is zeroed in all groups (whole-feature rule of C02)"]
 
